@@ -15,7 +15,6 @@ import (
 	"github.com/libsv/go-bt/v2/bscript"
 	"github.com/libsv/go-bt/v2/bscript/interpreter"
 	"github.com/libsv/go-bt/v2/bscript/interpreter/errs"
-	"github.com/libsv/go-bt/v2/bscript/interpreter/scriptflag"
 	"pgregory.net/rapid"
 
 	"verif/harness/gen"
@@ -112,7 +111,7 @@ func (c Case) options(dbg interpreter.Debugger) []interpreter.ExecutionOptionFun
 	default:
 		o = append(o, interpreter.WithTx(tx, c.Idx, nil))
 	}
-	o = append(o, interpreter.WithFlags(scriptflag.Flag(c.Flags)))
+	o = append(o, libexec.FlagOpts(interp.Flags(c.Flags), len(c.Lock)+len(c.Unlock)+c.CtxKind)...)
 	if dbg != nil {
 		o = append(o, interpreter.WithDebugger(dbg))
 	}
